@@ -176,6 +176,7 @@ type dkgRun struct {
 	Swaps    []string // Coq entries of the swap table
 	LostP    []uint64
 	LostE    []uint64
+	Forged   []uint64 // participants whose commit was replaced by a made-up reply
 	Applied  bool
 	Err      error
 	Panics   []string
@@ -224,6 +225,8 @@ func coqZs(l []*big.Int) string {
 
 // runGeneration performs one generation on the cluster with the given fault.
 func runGeneration(ctx context.Context, c *Cluster, r *dkgRun) {
+	noteRequest("Generate(%q, participants %d, threshold %d) on cluster %v, initiator %d, network fault %s", r.Acct, r.N, r.T, r.IDs, r.Initiator, r.Fault)
+	defer requestDone()
 	r.Polys = map[uint64][]*big.Int{}
 	r.Accounts = map[uint64]*dkgAccount{}
 	counts := map[string]int{}
@@ -286,6 +289,8 @@ func runGeneration(ctx context.Context, c *Cluster, r *dkgRun) {
 			want = "prepare"
 		case strings.HasSuffix(f.Kind, "-execute"):
 			want = "execute"
+		case f.Kind == "forged-commit":
+			want = "commit"
 		case f.Kind != "":
 			want = "contribute"
 		}
@@ -328,6 +333,25 @@ func runGeneration(ctx context.Context, c *Cluster, r *dkgRun) {
 		case "lost":
 			m.Drop = true
 			r.Swaps = append(r.Swaps, fmt.Sprintf("(%d%%N, %d%%N, None)", m.From, m.To))
+		case "session-lost":
+			// for the model: this exchange does not take place
+			m.SessionLost = true
+			r.Swaps = append(r.Swaps, fmt.Sprintf("(%d%%N, %d%%N, None)", m.From, m.To))
+		case "forged-commit":
+			m.ForgedReply = true
+			r.Forged = append(r.Forged, m.To)
+			// the key everybody else will report: g^(sum of the dealt polynomials' constant terms)
+			sum := new(big.Int)
+			for _, id := range r.Parts {
+				if poly := r.Polys[id]; len(poly) > 0 {
+					sum.Add(sum, poly[0])
+				}
+			}
+			sum.Mod(sum, frOrder)
+			var sk bls.SecretKey
+			if err := sk.SetHexString(sum.Text(16)); err == nil {
+				m.ForgedPK = sk.GetPublicKey().Serialize()
+			}
 		default:
 			poly := r.Polys[m.From]
 			if poly == nil {
@@ -733,8 +757,8 @@ func cmdDkg(prop string, args []string) int {
 				swaps := int(n) * (int(n) - 1) / 2
 				for pos := 1; pos <= swaps; pos++ {
 					for _, dir := range []string{"request", "reply"} {
-						for _, k := range []string{"lost", "share-replaced", "share-other-id", "vvec-altered", "vvec-short", "vvec-long", "vvec-long-plain", "duplicate", "replay-altered"} {
-							if k == "replay-altered" && dir == "reply" {
+						for _, k := range []string{"lost", "session-lost", "share-replaced", "share-other-id", "vvec-altered", "vvec-short", "vvec-long", "vvec-long-plain", "duplicate", "replay-altered"} {
+							if (k == "replay-altered" || k == "session-lost") && dir == "reply" {
 								continue
 							}
 							faults = append(faults, dkgFault{Kind: k, Pos: pos, Dir: dir})
@@ -772,6 +796,24 @@ func cmdDkg(prop string, args []string) int {
 						stats["generation.failed-as-required"]++
 					}
 					record(r)
+				}
+			}
+		}
+		// a commit that never reaches a participant while the initiator is handed a made-up key and confirmation
+		// signature for it: the generation must not be reported as a success
+		if prop == "C12" {
+			n := uint32(len(ids))
+			for _, t := range []uint32{n/2 + 1, n} {
+				for pos := 1; pos <= int(n)-1; pos++ {
+					acctN++
+					r := &dkgRun{IDs: ids, Initiator: ids[(pos+int(t))%len(ids)], N: n, T: t, Acct: fmt.Sprintf("Wallet 3/g%d", acctN), Fault: dkgFault{Kind: "forged-commit", Pos: pos}}
+					runGeneration(ctx, c, r)
+					stats["fault.forged-commit"]++
+					if r.Applied && r.Err == nil {
+						monFail = append(monFail, fmt.Sprintf("generation %q (n=%d t=%d ids=%v initiator=%d) reported success although the commit never reached participant(s) %v and the confirmation handed back for them was made up",
+							r.Acct, n, t, ids, r.Initiator, r.Forged))
+						monFail = append(monFail, judgeSuccess(ctx, c, r, stats, false)...)
+					}
 				}
 			}
 		}
